@@ -28,7 +28,7 @@ for i in ids:
         notapp.append({'property_id': i, 'reason': na.get('unclaimed', {}).get(i, na['default'])})
 m = {
     'version': 1,
-    'setup_cmd': 'cd lean && python3 ../harness/gen_driver.py && lake build',
+    'setup_cmd': 'bash harness/setup.sh',
     'hooks': {'guard': 'PYTHON_NDN_VERIF',
               'enable': 'no source hooks: the harness patches module attributes (time, secrets, faces) at run time',
               'baseline_off_cmd': 'cd /repo && /venv/bin/python -m pytest -ra -q -p no:cacheprovider --timeout=900 --continue-on-collection-errors',
